@@ -324,6 +324,9 @@ def oracle (st : OSt) (op : Op) (v : View) : OSt × List String :=
     else match diffView v.fabs v.nets (cmtF, cmtN) dirty with
       | some d => [s!"C08 rollback-mismatch: after the fail-safe ended without completion {d}"]
       | none => []
+  -- after a reported failed completion the bookkeeping follows the node (no cascade of reports)
+  let (cmtF, cmtN) : List (Nat × String) × String :=
+    if ended && isComplete && v.status = "NoSpace" then (viewCmt v, v.nets) else (cmtF, cmtN)
   let v08e : List String :=
     if expiredByTimer && v.armed.isSome && !newCtx then
       [s!"C08 expiry-failed: the fail-safe timer ran out (deadline {st.deadline}, now {st.now}) but the fail-safe is still armed; status {v.status}"]
@@ -405,7 +408,7 @@ def step (st : St) (line : String) : St × String :=
       | none => (st, "BAD output")
       | some v =>
         let (node', status) := Admin.step st.cfg st.node op
-        let modelOut := s!"{status} | {node'.dump}"
+        let modelOut := s!"{status.render} | {node'.dump}"
         let (ost', viols) := oracle st.ost op v
         let mine := viols.filter (fun m => m.startsWith st.prop)
         let st' := { st with node := node', ost := ost' }
